@@ -1095,10 +1095,10 @@ func (r *runner) sendToken(sr *sentReq) (outcome, error) {
 }
 
 func (r *runner) recordToken(i int, st step, o outcome, flow string, client, scope, dpopKey, def string, p *presentation, clean bool) string {
-	id := st.Tok
-	if id == "" || id == "none" {
-		r.extra++
-		id = fmt.Sprintf("x%d", r.extra)
+	// tokens are named in the order the node issued them (the model does the same)
+	id := fmt.Sprintf("t%d", len(r.tokens)+1)
+	if st.Tok != "" && st.Tok != id {
+		r.drift("step %d: the model names this token %s, the node issued its token number %d", i, st.Tok, len(r.tokens)+1)
 	}
 	tr := &tokenRec{id: id, token: o.token, flow: flow, iss: r.w.asURL(), client: client, scope: scope, def: def,
 		issuedAt: time.Now(), clean: clean}
@@ -1513,7 +1513,8 @@ func (r *runner) stepIntrospect(i int, st step) error {
 		return err
 	}
 	r.res.Checks++
-	ev := map[string]interface{}{"ev": "introspect", "t": st.T, "ext": st.Ext, "over": []string{}, "claims": []string{}}
+	ev := map[string]interface{}{"ev": "introspect", "t": st.T, "ext": st.Ext, "over": []string{}, "over_est": []string{}, "claims": []string{}, "nclaims": "all",
+		"iss": "std", "client": "std", "scope": "std", "cnf": "std", "other": []string{}}
 	if tr == nil {
 		ev["t"] = "bogus"
 	}
@@ -1646,6 +1647,7 @@ func (r *runner) stepIntrospect(i int, st step) error {
 	}
 	if len(missing) > 0 {
 		claimsOK = false
+		ev["nclaims"] = "dropped"
 		sort.Strings(missing)
 		endpoint := "introspect"
 		if st.Ext {
@@ -1660,19 +1662,27 @@ func (r *runner) stepIntrospect(i int, st step) error {
 		}
 	}
 	sort.Strings(over)
+	overEst := []string{}
 	for _, m := range over {
 		established := containsStr([]string{"active", "iss", "client_id", "scope", "iat", "exp"}, m) || (m == "cnf" && tr.cnf != "") ||
 			(st.Ext && containsStr([]string{"vps", "presentation_definitions", "presentation_submissions"}, m))
 		kind := "claim-injects-standard-member"
 		if established {
 			kind = "claim-overrides-standard-member"
+			overEst = append(overEst, m)
 		}
 		r.violate(i, kind, map[string]interface{}{"member": m},
 			fmt.Sprintf("token %s (definition field id %q): introspection member %s = %s is the credential-derived value", tr.id, tr.def, m, js(a[m])))
 	}
 	_ = claimsOK
 	sort.Strings(claimNames)
-	ev["over"], ev["claims"] = over, claimNames
+	if over == nil {
+		over = []string{}
+	}
+	if claimNames == nil {
+		claimNames = []string{}
+	}
+	ev["over"], ev["over_est"], ev["claims"] = over, overEst, claimNames
 	ev["iss"], ev["client"], ev["scope"], ev["cnf"] = abstract["iss"], abstract["client_id"], abstract["scope"], abstract["cnf"]
 	r.res.Trace = append(r.res.Trace, ev)
 	return nil
